@@ -174,3 +174,57 @@ func unwrapConv(info *types.Info, e ast.Expr) ast.Expr {
 		return e
 	}
 }
+
+// constructorParameters: every named parameter of an exported constructor (New…) of the given
+// packages reaches the object it builds: it is mentioned in the body. A With-constructor that
+// ignores one of its arguments builds the default configuration for that part whatever the
+// caller asked for.
+func (c *Ctx) constructorParameters(rule string, prefixes ...string) {
+	run := c.Run
+	n := 0
+	for _, pk := range c.P.Pkgs {
+		rel := load.RelPkg(pk.PkgPath)
+		match := false
+		for _, p := range prefixes {
+			if rel == p || strings.HasPrefix(rel, p+"/") {
+				match = true
+			}
+		}
+		if !match {
+			continue
+		}
+		info := pk.TypesInfo
+		for _, f := range pk.Syntax {
+			if strings.HasSuffix(c.P.Fset.Position(f.Pos()).Filename, "_test.go") {
+				continue
+			}
+			for _, d := range f.Decls {
+				fd, ok := d.(*ast.FuncDecl)
+				if !ok || fd.Body == nil || fd.Recv != nil || !strings.HasPrefix(fd.Name.Name, "New") || !fd.Name.IsExported() || fd.Type.Params == nil {
+					continue
+				}
+				for _, fl := range fd.Type.Params.List {
+					for _, nm := range fl.Names {
+						if nm.Name == "_" {
+							continue
+						}
+						obj := info.ObjectOf(nm)
+						n++
+						used := false
+						ast.Inspect(fd.Body, func(m ast.Node) bool {
+							if id, ok := m.(*ast.Ident); ok && info.Uses[id] == obj {
+								used = true
+							}
+							return !used
+						})
+						run.Oblige(used)
+						if !used {
+							c.violate(rule, rel+"."+fd.Name.Name, "parameter "+nm.Name, nm.Pos(), fd.Name.Name+" does not use its parameter "+nm.Name+": the object it returns has the default there, whatever the caller passes")
+						}
+					}
+				}
+			}
+		}
+	}
+	run.Count("constructor_parameters", n)
+}
